@@ -16,12 +16,19 @@ library on the same request): what `encoding/json` / `encoding/xml` leave in the
 (`formBody`, `multipart`).  `Request.ParseForm` is modelled as documented: for POST, PUT and
 PATCH the form data are the body pairs followed by the URL query pairs, otherwise the URL query.
 
+Round 4: destinations implementing the multi-value interface `UnmarshalParams([]string)`
+(`Shape.multi`: `unmarshalInputsToField` hands ALL values over before `inputValue[0]` is touched),
+multipart file fields (`Shape.file`: `*multipart.FileHeader`, `[]*multipart.FileHeader`,
+`[]multipart.FileHeader` are set from the uploaded files whose field name equals the `form` tag
+EXACTLY — no case folding for files — and a plain `multipart.FileHeader` field with a `form` tag
+is rejected as soon as the request carries any file), and `BindBody` called on its own.
+
 `strings.EqualFold` is modelled for ASCII keys only (`foldEq`); the harness compares with the
 model only requests whose keys are ASCII and in which no two keys are equal under folding
 without an exact match (Go map iteration order would decide).
 -/
 namespace C09
-open C08 (Elem SVal FVal structElem structElems zeroOf parseElem)
+open C08 (Elem SVal FVal structElem structElems zeroOf parseElem multiParse)
 
 inductive Src where
   | param | query | form | header
@@ -43,6 +50,14 @@ structure FMeta where
   exported : Bool       -- reflect: CanSet()
 deriving DecidableEq, Repr, Inhabited
 
+/-- the four field types `isFieldMultipartFile` knows -/
+inductive FileKind where
+  | ptr          -- *multipart.FileHeader
+  | ptrSlice     -- []*multipart.FileHeader
+  | slice        -- []multipart.FileHeader
+  | plain        -- multipart.FileHeader: "binding to multipart.FileHeader struct is not supported"
+deriving DecidableEq, Repr, Inhabited
+
 mutual
 inductive Shape where
   | scalar (e : Elem)
@@ -50,6 +65,8 @@ inductive Shape where
   | slice (e : Elem)           -- []T
   | other                      -- map / interface / func / array … field: setWithProperType says "unknown type"
   | unm                        -- struct type implementing BindUnmarshaler / TextUnmarshaler
+  | multi                      -- struct type implementing bindMultipleUnmarshaler (`UnmarshalParams([]string)`) only
+  | file (k : FileKind)        -- multipart.FileHeader in one of its four spellings
   | struct (fs : Fields)
   | ptrStruct (fs : Fields)    -- *struct
 inductive Fields where
@@ -76,6 +93,11 @@ def zeroS : Shape → Val
   | .slice _ => .leaf .nil
   | .other => .other
   | .unm => .leaf (.one (.opq []))
+  | .multi => .leaf (.many [])
+  | .file .ptr => .leaf .nil
+  | .file .ptrSlice => .leaf .nil
+  | .file .slice => .leaf .nil
+  | .file .plain => .leaf (.one (.opq []))
   | .struct fs => .struct (zeroF fs)
   | .ptrStruct _ => .nilStruct
 def zeroF : Fields → List Val
@@ -128,56 +150,90 @@ def setField (sh : Shape) (v : Val) (values : List (List Char)) : Val × Option 
       match parseElem noExt .unm x0 with
       | some y => (.leaf (.one y), none)
       | none => (v, some .bad)
+    | .multi => (v, some .bad)          -- not reached: `taggedStep` handles `.multi` before `inputValue[0]`
+    | .file .ptr =>                     -- allocated by unmarshalInputsToField, then "unknown type" (struct)
+      ((match v with | .leaf .nil => .leaf (.one (.opq [])) | w => w), some .bad)
+    | .file _ => (v, some .bad)         -- slices: the temporary slice fails on its first element; plain: struct
     | .other => (v, some .bad)
     | .struct _ => (v, some .bad)
     | .ptrStruct fs =>   -- allocated, then "unknown type"
       ((match v with | .nilStruct => .struct (zeroF fs) | w => w), some .bad)
 
+/-- `data[tag]` for the uploaded files: exact key only -/
+def fileLookup (files : Data) (tag : List Char) : Option (List (List Char)) :=
+  (files.find? (fun kv => kv.1 == tag)).map (·.2)
+
+/-- `if hasFiles { isFieldMultipartFile …; setMultipartFileHeaderTypes … }`:
+    `some r` = the iteration ends here with `r` (error, or field set and `continue`),
+    `none` = fall through to the ordinary value lookup -/
+def fileStep (files : Data) (tag : List Char) (sh : Shape) (v : Val) : Option (Val × Option Err) :=
+  if files = [] then none
+  else
+    match sh with
+    | .file .plain => some (v, some .bad)
+    | .file k =>
+      match fileLookup files tag with
+      | some (f0 :: fs) =>
+        match k with
+        | .ptr => some (.leaf (.one (.opq f0)), none)
+        | _ => some (.leaf (.many ((f0 :: fs).map .opq)), none)
+      | _ => none
+    | _ => none
+
 /-- a settable field with a tag for this source -/
-def taggedStep (src : Src) (data : Data) (m : FMeta) (sh : Shape) (v : Val) : Val × Option Err :=
-  match lookup data (m.tags.get src) with
-  | none => (v, none)
-  | some values => setField sh v values
+def taggedStep (src : Src) (data files : Data) (m : FMeta) (sh : Shape) (v : Val) : Val × Option Err :=
+  match fileStep files (m.tags.get src) sh v with
+  | some r => r
+  | none =>
+    match lookup data (m.tags.get src) with
+    | none => (v, none)
+    | some values =>
+      match sh with
+      | .multi =>      -- unmarshalInputsToField: all values, no `inputValue[0]`
+        match multiParse values with
+        | some ys => (.leaf (.many ys), none)
+        | none => (v, some .bad)
+      | _ => setField sh v values
 
 mutual
 /-- the field loop of `bindData` -/
-def bindF (src : Src) (data : Data) : Fields → List Val → List Val × Option Err
+def bindF (src : Src) (data files : Data) : Fields → List Val → List Val × Option Err
   | .nil, vs => (vs, none)
   | .cons _ _ _, [] => ([], none)
   | .cons m s rest, v :: vs =>
-    match bindS src data m s v with
+    match bindS src data files m s v with
     | (v', some e) => (v' :: vs, some e)
     | (v', none) =>
-      let r := bindF src data rest vs
+      let r := bindF src data files rest vs
       (v' :: r.1, r.2)
 /-- one iteration -/
-def bindS (src : Src) (data : Data) (m : FMeta) : Shape → Val → Val × Option Err
+def bindS (src : Src) (data files : Data) (m : FMeta) : Shape → Val → Val × Option Err
   | .struct fs, .struct vs =>
     if m.exported = false then (.struct vs, none)
     else if m.anonymous = true ∧ m.tags.get src ≠ [] then (.struct vs, some .bad)
     else if m.tags.get src = [] then
-      let r := bindF src data fs vs
+      let r := bindF src data files fs vs
       (.struct r.1, r.2)
-    else taggedStep src data m (.struct fs) (.struct vs)
+    else taggedStep src data files m (.struct fs) (.struct vs)
   | .ptrStruct fs, .struct vs =>
     if m.exported = false then (.struct vs, none)
     else if m.anonymous = true then
       -- structField = structField.Elem(): from here on the field IS the struct
       if m.tags.get src ≠ [] then (.struct vs, some .bad)
       else
-        let r := bindF src data fs vs
+        let r := bindF src data files fs vs
         (.struct r.1, r.2)
     else if m.tags.get src = [] then (.struct vs, none)
-    else taggedStep src data m (.ptrStruct fs) (.struct vs)
+    else taggedStep src data files m (.ptrStruct fs) (.struct vs)
   | .ptrStruct fs, v =>
     if m.exported = false then (v, none)
     else if m.anonymous = true then (v, none)     -- Elem() of a nil pointer cannot be set: skipped
     else if m.tags.get src = [] then (v, none)
-    else taggedStep src data m (.ptrStruct fs) v
+    else taggedStep src data files m (.ptrStruct fs) v
   | sh, v =>
     if m.exported = false then (v, none)
     else if m.tags.get src = [] then (v, none)
-    else taggedStep src data m sh v
+    else taggedStep src data files m sh v
 end
 
 /-! ## destinations -/
@@ -219,9 +275,9 @@ def mapBind (kind : MapKind) : Data → Data → Data × Option Err
     | _, v0 :: _ => mapBind kind rest (mapInsert k [v0] acc)
 
 /-- `bindData` -/
-def bindData (src : Src) (data : Data) : Dest → DVal → DVal × Option Err
+def bindData (src : Src) (data files : Data) : Dest → DVal → DVal × Option Err
   | d, v =>
-    if data = [] then (v, none)
+    if data = [] ∧ files = [] then (v, none)
     else
       match d, v with
       | .map .unsupported, v => (v, none)
@@ -229,7 +285,7 @@ def bindData (src : Src) (data : Data) : Dest → DVal → DVal × Option Err
         let r := mapBind k data entries
         (.map false r.1, r.2)
       | .struct fs, .struct vs =>
-        let r := bindF src data fs vs
+        let r := bindF src data files fs vs
         (.struct r.1, r.2)
       | .nonStruct, v => if src = .form then (v, some .bad) else (v, none)
       | _, v => (v, none)
@@ -246,6 +302,8 @@ structure BindReq where
   xml : DVal × Bool
   formBody : Option Data        -- urlencoded body parsed (none = malformed)
   multipart : Option Data       -- multipart body values (none = malformed)
+  files : Data                  -- multipart body files: field name ↦ file names
+  queryOK : Bool                -- the URL query string parses without error (`query` holds the well-formed pairs)
 deriving Inhabited
 
 inductive Status where
@@ -292,31 +350,36 @@ def bindBody (d : Dest) (v : DVal) (r : BindReq) : DVal × Status :=
     else if mt = mXML ∨ mt = mTextXML then (r.xml.1, if r.xml.2 then .ok else .bad)
     else if mt = mForm then
       -- `Request.ParseForm`: the body is read for POST, PUT and PATCH only; `Request.Form` then
-      -- holds the body pairs followed by the URL query pairs, otherwise the URL query alone
-      if bodyFormMethods.contains r.method then
+      -- holds the body pairs followed by the URL query pairs, otherwise the URL query alone.
+      -- A malformed pair in the URL query makes ParseForm (and ParseMultipartForm) report an
+      -- error: 400 before anything is bound.  (`URL.Query()`, used by the query step, drops
+      -- malformed pairs silently instead.)
+      if r.queryOK = false then (v, .bad)
+      else if bodyFormMethods.contains r.method then
         match r.formBody with
         | none => (v, .bad)
         | some body =>
-          let res := bindData .form (mergeData body r.query) d v
+          let res := bindData .form (mergeData body r.query) [] d v
           (res.1, statusOf res.2)
       else
-        let res := bindData .form r.query d v
+        let res := bindData .form r.query [] d v
         (res.1, statusOf res.2)
     else if mt = mMultipart then
+      if r.queryOK = false then (v, .bad) else
       match r.multipart with
       | none => (v, .bad)
       | some body =>
-        let res := bindData .form body d v
+        let res := bindData .form body r.files d v
         (res.1, statusOf res.2)
     else (v, .unsupported)
 
 def bind (d : Dest) (v : DVal) (r : BindReq) : DVal × Status :=
-  let r1 := bindData .param r.params d v
+  let r1 := bindData .param r.params [] d v
   match r1.2 with
   | some e => (r1.1, statusOf (some e))
   | none =>
     if queryMethods.contains r.method then
-      let r2 := bindData .query r.query d r1.1
+      let r2 := bindData .query r.query [] d r1.1
       match r2.2 with
       | some e => (r2.1, statusOf (some e))
       | none => bindBody d r2.1 r
@@ -347,6 +410,12 @@ def pShape : Nat → P Shape
     | 2 => do let e ← C08.pElem .struct; pure (.slice e)
     | 3 => pure .other
     | 4 => pure .unm
+    | 7 => pure .multi
+    | 8 => do
+      let k ← nat
+      match k with
+      | 0 => pure (.file .ptr) | 1 => pure (.file .ptrSlice) | 2 => pure (.file .slice) | 3 => pure (.file .plain)
+      | _ => failure
     | 5 => do let n ← nat; let fs ← pFields fuel n; pure (.struct fs)
     | 6 => do let n ← nat; let fs ← pFields fuel n; pure (.ptrStruct fs)
     | _ => failure
@@ -462,11 +531,14 @@ def pReq : P BindReq := do
   let xml ← pDecoded
   let formBody ← opt pData
   let multipart ← opt pData
-  pure ⟨method, params, query, hasBody, ctype, json, xml, formBody, multipart⟩
+  let files ← pData
+  let queryOK ← bool
+  pure ⟨method, params, query, hasBody, ctype, json, xml, formBody, multipart, files, queryOK⟩
 
 inductive Case where
   | single (src : Src) (data : Data)
   | bind (r : BindReq)
+  | body (r : BindReq)       -- `BindBody` alone
 
 def pCase : P (Dest × DVal × Case) := do
   let d ← pDest
@@ -475,18 +547,22 @@ def pCase : P (Dest × DVal × Case) := do
   match k with
   | 0 => do let s ← pSrc; let data ← pData; pure (d, v, .single s data)
   | 1 => do let r ← pReq; pure (d, v, .bind r)
+  | 2 => do let r ← pReq; pure (d, v, .body r)
   | _ => failure
 
 /-- line: `dest value 0 src data` (one of BindPathParams / BindQueryParams / BindHeaders) or
-    `dest value 1 request` (Bind)  →  `status value'` -/
+    `dest value 1 request` (Bind) or `dest value 2 request` (BindBody)  →  `status value'` -/
 def runLine (line : String) : String :=
   match parseLine pCase line with
   | none => "bad-op"
   | some (d, v, .single s data) =>
-    let r := bindData s data d v
+    let r := bindData s data [] d v
     render (encErr r.2 :: encDVal r.1)
   | some (d, v, .bind rq) =>
     let r := bind d v rq
+    render (encStatus r.2 :: encDVal r.1)
+  | some (d, v, .body rq) =>
+    let r := bindBody d v rq
     render (encStatus r.2 :: encDVal r.1)
 
 end C09
